@@ -24,3 +24,9 @@ Your task:
 5. Leave the refactoring applied in the worktree (uncommitted) and write {wt}/patch.diff containing `git diff -- emd`.
 
 Report back: a 3-6 line description of the refactoring (which functions, what kind of edit), why it is behaviour-preserving, and the exact commands you ran with their outcomes. One refactoring only.""")
+import glob
+prev = [json.load(open(f))['summary'] for f in sorted(glob.glob('/verif/refactors/%s-*/meta.json' % pid))]
+if prev:
+    print("\nFor diversity: earlier testers already tried the following refactorings for this property, so make yours a DIFFERENT kind of edit and, if the property is anchored in several functions, prefer a function they did not touch (typical things not yet tried: swapping the order of independent statements, changing a comparison into its logically equivalent form, replacing an index loop by enumerate / zip, introducing or removing an intermediate variable or a copy that is never written, using keyword instead of positional arguments in internal calls, splitting a function in two, replacing a comprehension by a loop, early returns):")
+    for i, m in enumerate(prev):
+        print(' %d. "%s"' % (i + 1, m))
